@@ -1,5 +1,6 @@
 """dataprog -- builder of data programs: emits script lines for all ranks while running the
 reference model inline, so that every line carries the model's prediction (Expect)."""
+import random
 import numpy as np
 from . import cdfspec as cs
 from .core import Script, hx, ints
@@ -346,6 +347,21 @@ class Prog:
             kw["start"], kw["count"], kw["stride"], kw["imap"] = ints(st), ints(ct), ints(sd) if sd is not None else "-", ints(imap) if imap is not None else "-"
         return kw
 
+    @staticmethod
+    def varn_permute(a, vp):
+        perm, off, size = vp
+        return np.concatenate([a[off[p]:off[p] + size[p]] for p in perm]) if len(a) else a
+
+    @staticmethod
+    def varn_unpermute(a, vp):
+        perm, off, size = vp
+        out = a.copy()
+        pos = 0
+        for p in perm:
+            out[off[p]:off[p] + size[p]] = a[pos:pos + size[p]]
+            pos += size[p]
+        return out
+
     def random_imap(self, ct, compact):
         rng = self.rng
         nd = len(ct)
@@ -398,6 +414,7 @@ class Prog:
         if mt is None:
             mt, td = self.choose_mem(v, (data, mask) if isget else None, nelem=nelem)
         imap = None
+        varn_perm = None
         if form == "varm":
             r = rng.random()
             if r < 0.75 and v.ndims > 0:
@@ -419,6 +436,21 @@ class Prog:
                 for i in range(len(b) - 1):
                     starts.append([st[0] + b[i]] + list(st[1:]))
                     counts.append([b[i + 1] - b[i]] + list(ct[1:]))
+                if len(starts) > 1:
+                    # half of the time list the sub-boxes out of file order (the user buffer follows the list order);
+                    # a private generator keeps the main random stream, and so every other case, unchanged
+                    prng = random.Random(hash((tuple(st), tuple(ct), vid, len(starts))) & 0xffffffff)
+                    if prng.random() < 0.5:
+                        perm = list(range(len(starts)))
+                        while perm == sorted(perm):
+                            prng.shuffle(perm)
+                        slab = int(np.prod(ct[1:])) if len(ct) > 1 else 1
+                        varn_perm = (perm, [b[i] * slab for i in range(len(starts))], [(b[i + 1] - b[i]) * slab for i in range(len(starts))])
+                        starts = [starts[p] for p in perm]
+                        counts = [counts[p] for p in perm]
+                        if isget:
+                            data = self.varn_permute(data, varn_perm)
+                            mask = self.varn_permute(mask, varn_perm)
                 kw["num"] = len(starts)
                 kw["starts"] = ";".join(ints(x) for x in starts)
                 allone = all(all(c == 1 for c in cc) for cc in counts)
@@ -448,6 +480,9 @@ class Prog:
                 return line, ex
             return self.emit(rank, op, ex, **kw), None
         vals, buf, bufcount, nbytes = self.mem_for_write(v, nelem, ct, form, mt, td, imap)
+        if varn_perm is not None:
+            # vals is in user-buffer (list) order: bring it back to the canonical order of idx for the model
+            vals = self.varn_unpermute(np.asarray(vals), varn_perm)
         if mt == "flex":
             kw["bufcount"] = bufcount if td is not None else 0
             kw["buftype"] = td.ref() if td is not None else "null"
